@@ -27,6 +27,7 @@ from typedpy.serialization.versioned_mapping import convert_dict
 
 from .. import dump, gen, aliasprobe as AP
 from . import construct as C
+from . import alias_api as API
 
 SCALAR_KINDS = ("integer", "number", "float", "string", "boolean", "enumCls", "enumLit", "noneF")
 INPUT_OPS = ("construct", "setattr", "deserialize", "derive")
@@ -768,6 +769,8 @@ def situation(case):
 # ------------------------------------------------------------------ real code
 
 def run_impl(case):
+    if case["op"] == "api":
+        return API.run_api(case)
     try:
         sit = situation(case)
     except Exception as e:
@@ -849,6 +852,8 @@ def immutable_output(case):
 
 
 def line(case, impl):
+    if case["op"] == "api":
+        return {"suite": "alias", "skip": True}      # public entry points outside the heap model: snapshots only
     if "cells" not in impl or immutable_output(case) or oracle_only(case):
         return {"suite": "alias", "skip": True}
     return {"suite": "alias", "op": case["op"], "shape": impl["shape"], "cells": impl["cells"], "src": impl["src"],
@@ -865,6 +870,8 @@ def visible_shape(case, impl):
 
 def judge(case, impl, model):
     fails = []
+    if case["op"] == "api":
+        return API.judge_api(case, impl)
     if "unbuildable" in impl:
         return None, fails
     op = case["op"]
@@ -937,6 +944,8 @@ def judge(case, impl, model):
 
 def tags(case, impl, model):
     t = ["op:" + case["op"]]
+    if case["op"] == "api":
+        t.append("api:" + case["fn"])
     if "unbuildable" in impl:
         return t + ["unbuildable"]
     t.append("real:" + ("ok" if impl.get("ok") else "raises:" + str(impl.get("err"))))
@@ -1389,4 +1398,6 @@ def directed_cases():
     dflt = dict(_cls("Dflt", [["s", STR], ["n", INT]], required=["n"], addl=True), defaults=[["s", "x"]])
     out.append({"suite": "alias", "op": "toSchema", "cls": dflt})
     out.append({"suite": "alias", "op": "schemaToCode", "cls": dflt})
+    # every public entry point that no operation stream above exercises (harness/suites/alias_api.py)
+    out += API.api_cases()
     return out
